@@ -9,6 +9,11 @@ Local Open Scope N_scope.
 Lemma xml_bodies_ok : xml_bodies xml_table.
 Proof. constructor; reflexivity. Qed.
 
+(* ... and the arm bodies of the comment, processing-instruction and doctype states (XLexMisc) *)
+From HV Require Import XmlNs.XLexMisc.
+Lemma xml_misc_bodies_ok : xml_misc_bodies xml_table.
+Proof. constructor; reflexivity. Qed.
+
 (* NAMED_ENTITIES.get as a lookup in the generated list *)
 Definition gen_ent (k : list N) : option (N * N) :=
   match find (fun kv => str_eqb (fst kv) k) entities with Some kv => Some (snd kv) | None => None end.
@@ -95,4 +100,54 @@ Theorem xml_end_item_lex : sk_resp sk = [] -> forall name b cu tk tn ta rest o k
     XTreeModel.TTag XTreeModel.EndTag (XTreeModel.process_qname (XSerModel.qual name)) [] (XSerModel.qual name, []).
 Proof. intro NS. exact (end_item_lex xml_table xml_bodies_ok simd gen_ent c1 sk NS). Qed.
 
+(* ---- comments, processing instructions, the doctype; whole documents (XLexMisc, XLexDoc, XLexRound) *)
+Theorem xml_comment_lex : forall s b cu tk tn ta an av rest o k,
+  bg_clean b -> comment_ok s = true -> exists o' k',
+    xml_steps (mkM b XData false cu false None tk tn ta an av ([60; 33; 45; 45] ++ s ++ [45; 45; 62] ++ rest) o k)
+              (mkM b XData false 62 false None tk tn ta an av rest o' k') /\
+    otoks o' = rev (comment_toks s) ++ otoks o.
+Proof. exact (comment_lex xml_table xml_bodies_ok xml_misc_bodies_ok simd gen_ent c1 sk). Qed.
+
+Theorem xml_pi_lex : forall t d b cu tk tn ta an av rest o k,
+  bg_clean b -> pi_target_ok t = true -> pi_data_ok d = true -> exists o' k',
+    xml_steps (mkM b XData false cu false None tk tn ta an av ([60; 63] ++ t ++ [32] ++ d ++ [63; 62] ++ rest) o k)
+              (mkM b XData false 62 false None tk tn ta an av rest o' k') /\
+    otoks o' = rev (pi_toks t d) ++ otoks o.
+Proof. exact (pi_lex xml_table xml_bodies_ok xml_misc_bodies_ok simd gen_ent c1 sk). Qed.
+
+Theorem xml_doctype_lex : forall n b cu tk tn ta an av rest o k,
+  bg_clean b -> doctype_name_ok n = true -> exists o' k',
+    xml_steps (mkM b XData false cu false None tk tn ta an av
+                   ([60; 33; 68; 79; 67; 84; 89; 80; 69; 32] ++ n ++ [62] ++ rest) o k)
+              (mkM b XData false 62 false None tk tn ta an av rest o' k') /\
+    otoks o' = rev (doctype_toks n) ++ otoks o.
+Proof. exact (doctype_lex xml_table xml_bodies_ok xml_misc_bodies_ok simd gen_ent c1 sk). Qed.
+
 End I.
+
+From HV Require Import XmlNs.XLexDoc XmlNs.XLexTree XmlNs.XLexHyps XmlNs.XLexRound.
+
+Section D.
+Variable simd : list N * list N * list N.
+Variable c1 : N -> option N.
+Variable sk : sinkcfg.
+Hypothesis NoScript : sk_resp sk = [].
+
+(* the driver of the reference semantics on the regenerated table: one chunk, then the end of the input *)
+Definition xml_drive := XLexDoc.xdrive xml_table simd gen_ent c1 sk.
+
+Theorem xml_doc_tokens : forall kids bom,
+  XRoundTrip.rt_hyps kids = true -> lex_hyps kids = true ->
+  exists n, forall f, exists m',
+    xml_drive (n + S f)%nat [] [XSerModel.serialize kids] (init_m bom) [] = (m', [SSuspend; SSuspend]) /\
+    rev (otoks (mout m')) = flat_map lex_item (XSerModel.ser_doc kids) ++ [TEof].
+Proof. exact (doc_tokens xml_table xml_bodies_ok xml_misc_bodies_ok simd gen_ent c1 sk gen_ent_five NoScript). Qed.
+
+Theorem xml_roundtrip_through_tokenizer : forall kids bom,
+  XRoundTrip.rt_hyps kids = true -> lex_hyps kids = true ->
+  exists n, forall f, exists m',
+    xml_drive (n + S f)%nat [] [XSerModel.serialize kids] (init_m bom) [] = (m', [SSuspend; SSuspend]) /\
+    map XTreeModel.erase (XTreeModel.parse_tokens (conv_toks (rev (otoks (mout m'))))) =
+    map XRoundTrip.strip_ids kids.
+Proof. exact (roundtrip_through_tokenizer xml_table xml_bodies_ok xml_misc_bodies_ok simd gen_ent c1 sk gen_ent_five NoScript). Qed.
+End D.
